@@ -417,6 +417,8 @@ class Check:
         with open(path, "w") as fh:
             fh.write(body)
         self.violations.append((signature, what, path))
+        global _violations_printed
+        _violations_printed += 1
         print("VIOLATION property=%s replay=%s" % (self.pid, path))
         print("  signature=%s %s" % (signature, what))
         sys.stdout.flush()
@@ -528,16 +530,26 @@ def write_ndjson(path, records):
     return path
 
 
+_violations_printed = 0
+
+
+def _infra_exit():
+    # A violation shown on the real code stays a violation when a LATER stage of the same check cannot finish
+    # (on a broken tree later stages often cannot): exit 1. Without any violation the run is inconclusive: exit 2.
+    sys.stdout.flush()
+    sys.exit(1 if _violations_printed else 2)
+
+
 def main(fn):
     """Run a check function, mapping machinery failures to exit 2."""
     try:
         fn()
     except InfraError as e:
         sys.stderr.write("INFRA-ERROR: %s\n" % e)
-        sys.exit(2)
+        _infra_exit()
     except subprocess.TimeoutExpired as e:
         sys.stderr.write("INFRA-ERROR: timeout %s\n" % e)
-        sys.exit(2)
+        _infra_exit()
     except SystemExit:
         raise
     except BaseException:
